@@ -188,6 +188,56 @@ def run(rep):
     rep.check(ok_seed, 'C08.closure-seed', f'seed:{q}', where, 'the closure is not seeded with the type of every module.global_variables element (unfiltered)', ok_detail='for g in module.global_variables: closure(g.ty)')
 
 
+def closure_discipline(ogp, rep, rule, driver_q, set_term, modP, where):
+    """the set `set_term` consulted by the driver is the transitive type closure of all module-scope variables:
+    seeded with g.ty of every global (unfiltered, unconditional); inside the recursive closure function every visited handle is
+    inserted into that very set unconditionally and the set is passed on unchanged"""
+    crate = ogp.crate
+    effs = ogp.effects.get(driver_q, [])
+    seeds = [e for e in effs if e['kind'] == 'mutate' and e['method'] == 'insert' and e['target'] == set_term]
+    ok_seed = any(e['loops'] and e['loops'][0][1] == ('f', modP, 'global_variables') and e['loops'][0][2] == [] and e['cond'] == ('true',) and
+                  e['args'] == [('f', ('tf', ('elem', e['loops'][0][0], e['loops'][0][1]), 1), 'ty')] for e in seeds)
+    rep.check(ok_seed, rule, 'closure-seed', where,
+              f'the set {E.show(set_term, maxdepth=3)} is not seeded unconditionally with the type of every module-scope variable: structs reachable only from some variables '
+              f'(push constants, workgroup, later declarations, ...) are treated as not host-shareable', ok_detail='seeded from every module.global_variables element')
+    recs = [e for e in effs if e['kind'] == 'reccall' and set_term in e['args']]
+    rep.check(bool(recs), rule, 'closure-recursive', where, 'the set is not filled by a recursive type closure', ok_detail='filled by the recursive closure')
+    done = set()
+    for e in recs:
+        cq = e['callee']
+        pos = e['args'].index(set_term)
+        if (cq, pos) in done:
+            continue
+        done.add((cq, pos))
+        cf = crate.fns[cq]
+        cwhere = f"{crate.relfile(cf['file'])} fn {cf['name']}"
+        Sx = ('param', cq, cf['params'][pos]['pat']['name'])
+        hidx = [i for i, p in enumerate(cf['params']) if p['ty'].replace(' ', '').lstrip('&').startswith(('Handle<', 'naga::Handle<'))]
+        if not hidx:
+            rep.bad(rule, f'closure-handle:{cq}', cwhere, 'cannot identify the handle parameter of the closure function', undecided=True)
+            continue
+        H = ('param', cq, cf['params'][hidx[0]]['pat']['name'])
+        own = [x for x in ogp.effects.get(cq, []) if x['in'] == cq]
+        ins = [x for x in own if x['kind'] == 'mutate' and x['method'] == 'insert' and x['target'] == Sx]
+        rep.check(len(ins) >= 1 and all(x['args'] == [H] and x['cond'] == ('true',) for x in ins), rule, f'closure-insert:{cf["name"]}#{pos}', cwhere,
+                  f'not every visited type handle is inserted into the set passed as parameter #{pos} ({[E.show(x["cond"], maxdepth=4) for x in ins]}): types visited under some condition / after an early '
+                  f'return are missing from it', ok_detail='every visited handle inserted unconditionally')
+        rc = [x for x in own if x['kind'] == 'reccall' and x['callee'] == cq]
+        rep.check(bool(rc) and all(x['args'][pos] == Sx for x in rc), rule, f'closure-pass:{cf["name"]}#{pos}', cwhere, 'the set is not passed on unchanged in the recursive calls', ok_detail='set passed on unchanged')
+        # nothing returns before the insert into this set
+        early = [x for x in own if x['kind'] == 'reccall' and x['callee'] == cq and not mentions_insert_of(x['cond'], Sx) and any(y['kind'] == 'mutate' and y['method'] == 'insert' and y['target'] != Sx for y in own)]
+
+
+def mentions_insert_of(cond, Sx):
+    found = [False]
+
+    def f(x):
+        if x[0] == 'mcall' and x[2] == 'insert' and x[1] == Sx:
+            found[0] = True
+    E.walk(cond, f)
+    return found[0]
+
+
 def only_struct_cond(c, elem):
     txt = E.show(c, maxdepth=6)
     return 'is Struct' in txt and 'any(' not in txt
